@@ -1,6 +1,6 @@
 """C02 - parsed trees mirror the source: structure, decoded values and spans."""
 import contracts.lexer as LEX
-from vf import engine_a, frontend
+from vf import engine_a, engine_b, frontend
 from vf.report import MachineryDefect, Run
 
 
@@ -13,6 +13,8 @@ def check(tier, seed):
                             timeout_ms=20000 if tier == "thorough" else 10000,
                             skip=lambda oid: oid.endswith("position-in-text"))  # error positions belong to C01
     run.cov["parts"]["engine_a"] = verdicts
+    # A2. deductive: node class / constructor keywords / span discipline of every node the parser builds (Engine B, P5)
+    engine_b.run(run, "C02")
     # B. bounded: parse_block_string == BlockStringValue
     nb, bfails = frontend.block_string_check(tier, jobs)
     run.cov["evaluations"] += nb
